@@ -1,0 +1,53 @@
+//go:build verif
+
+// Contracts for the deductive verifier in /verif (comment-only file; it
+// contributes no code to any build). Syntax: see /verif/DESIGN.md.
+//
+// Property C20, the "never causes a panic" half for the ByteStream resource
+// name parsers: every index into the list of pathname components is within
+// bounds for every resource name, truncated ones included. The parsers split
+// the name into non-empty components (strings.FieldsFunc, assumed), look for
+// the keyword that ends the instance name while keeping enough components
+// behind it, and hand the remainder to the common tail parser, which needs
+// three components and checks for itself before it looks at a fourth.
+package digest
+
+// FieldsFunc never yields an empty field (assumed; standard library).
+//@ extern strings.FieldsFunc
+//@   modifies nothing
+//@   ensures forall i :: 0 <= i && i < len(result) ==> len(result[i]) >= 1
+//@ extern strings.Join
+//@   modifies nothing
+//@ extern strconv.ParseInt
+//@   modifies nothing
+
+// (The contracts of NewDigestFromByteStreamReadPath and …WritePath, with the
+// loop invariants that keep enough components behind the keyword, are in
+// verif_contracts.go next to what their callers rely on.)
+
+//@ func newDigestFromByteStreamPathCommon
+//@   requires [enough-components-left] len(trailer) >= 3
+//@   requires [no-empty-component] forall i :: 0 <= i && i < len(header) ==> len(header[i]) >= 1
+//@   modifies nothing
+//@   ensures [bad-digest-on-error] result2 != nil ==> result0.value == BadDigest.value
+
+// An empty component is a programming error that is answered with a panic:
+// callers have to rule it out.
+//@ func validateInstanceNameComponents
+//@   requires [no-empty-component] forall i :: 0 <= i && i < len(components) ==> len(components[i]) >= 1
+//@   modifies nothing
+//@   loop 0 invariant -1 <= rangeindex
+//@ func NewInstanceNameFromComponents
+//@   requires [no-empty-component] forall i :: 0 <= i && i < len(components) ==> len(components[i]) >= 1
+//@   modifies nothing
+//@ func NewInstanceName
+//@   modifies nothing
+
+// NewDigest accepts a hash only if it has the length the digest function
+// prescribes and a size only if it is not negative.
+//@ func (Function).NewDigest
+//@   modifies nothing
+//@   ensures [wrong-hash-length-rejected] result1 == nil ==> len(hash) == 2 * f.bareFunction.hashBytesSize
+//@   ensures [negative-size-rejected] result1 == nil ==> sizeBytes >= 0
+//@   ensures [bad-digest-on-error] result1 != nil ==> result0.value == BadDigest.value
+//@   loop 0 invariant true
